@@ -1,7 +1,201 @@
-/- C14 — statements under construction -/
-import AgpTpf.Model.Fasta
+/-
+  C14 — Reversal and reverse-complement are involutions that commute with output.
+
+  * complement table (`IUPAC_COMPLEMENT`, fasta/simple.py; model `comp` over the table regenerated from the source):
+    an involution on all 256 byte values, exactly the IUPAC pairs, case-preserving;
+  * `reverse_complement` twice is the identity on every byte string;
+  * `Scaffold.reverse` (assembly/scaffold.py, `Fragment.reverse`): twice gives back the rows; once preserves length,
+    gap rows, contig names/intervals/tags, inverts the row order and negates every strand;
+  * streaming (`FastaStream.write_scaffold`, fasta/stream.py) a reversed scaffold writes the record whose sequence is
+    the reverse complement of the sequence of the original record — for scaffolds whose strands are `+`/`-`.
+    For an unknown strand (`?`, 0) this is FALSE of the code (known finding F9): see `stream_reverse_unknown_strand_counterexample`.
+
+  Helper lemmas: AgpTpf/Proofs/C14.lean, C03Stream.lean (stream specification), C03Seq.lean, C03Wrap.lean, C03Chunks.lean.
+-/
+import AgpTpf.Proofs.C14
+import AgpTpf.Proofs.C03Example
 namespace AgpTpf.C14
-open AgpTpf
+open AgpTpf AgpTpf.StreamProofs AgpTpf.WrapProofs AgpTpf.SeqProofs AgpTpf.StreamExample
+
+/-! ### the complement table, exhaustively over all 256 byte values -/
+
+/-- the table has one entry per byte value and maps bytes to bytes -/
+theorem comp_table_length : Gen.complementTable.length = 256 := C14Proofs.table_length
+theorem comp_lt_256 : ∀ b, b < 256 → comp b < 256 := C14Proofs.comp_lt_256
+
+/-- complementing twice returns every byte -/
+theorem comp_involutive : ∀ b, b < 256 → comp (comp b) = b := C14Proofs.comp_comp_256
+
+/-- the table is exactly `bytes.maketrans(iupacFrom, iupacTo)`: the 30 IUPAC letters go to their partners … -/
+theorem comp_iupac : ∀ i, i < 30 → comp (Gen.iupacFrom.getD i 0) = Gen.iupacTo.getD i 0 := by decide +kernel
+/-- … and every other byte is left alone -/
+theorem comp_other : ∀ b, b < 256 → b ∉ Gen.iupacFrom → comp b = b := by decide +kernel
+
+/-- case-preserving: upper case stays upper case, lower stays lower, and the two halves of the table agree -/
+theorem comp_case : ∀ b, b < 256 →
+    ((65 ≤ b ∧ b ≤ 90) ↔ (65 ≤ comp b ∧ comp b ≤ 90)) ∧ ((97 ≤ b ∧ b ≤ 122) ↔ (97 ≤ comp b ∧ comp b ≤ 122)) := by
+  decide +kernel
+theorem comp_lower_upper : ∀ b, b < 256 → 65 ≤ b → b ≤ 90 → comp (b + 32) = comp b + 32 := by decide +kernel
+
+/-! ### reverse complement of byte strings -/
+
 theorem reverseComplement_length (s : Bytes) : (reverseComplement s).length = s.length := by
   simp [reverseComplement]
+
+/-- reverse-complementing any byte string twice returns it unchanged (the hypothesis "all bytes" is not even
+    needed in the model: values ≥ 256 are left alone by `comp`). -/
+theorem revcomp_revcomp_all (s : Bytes) : reverseComplement (reverseComplement s) = s :=
+  C14Proofs.revcomp_revcomp s
+
+theorem revcomp_revcomp (s : Bytes) (_ : ∀ b ∈ s, b < 256) : reverseComplement (reverseComplement s) = s :=
+  C14Proofs.revcomp_revcomp s
+
+/-- it is the reverse of the string, complemented byte by byte: byte `i` of the result is the complement of byte
+    `n-1-i` of the input -/
+theorem reverseComplement_get (s : Bytes) (i : Nat) (h : i < s.length) :
+    (reverseComplement s)[i]? = (s[s.length - 1 - i]?).map comp := by
+  simp only [reverseComplement, List.getElem?_map, List.getElem?_reverse h]
+
+example : reverseComplement [65, 67, 110, 82, 116] = [97, 89, 110, 71, 84] := by decide  -- ACnRt ↦ aYnGT
+example : (∀ b ∈ [65, 67, 110, 82, 116], b < 256) := by decide
+
+/-! ### `Scaffold.reverse` -/
+
+/-- reversing twice gives back the original rows (and the name) -/
+theorem reverse_reverse (s : Scaffold) : (s.reverse).reverse.rows = s.rows := by
+  simp only [Scaffold.reverse, List.map_reverse, List.reverse_reverse, List.map_map]
+  have : Row.reverse ∘ Row.reverse = id := by funext r; exact C14Proofs.row_reverse_reverse r
+  rw [this, List.map_id]
+
+theorem reverse_reverse_name (s : Scaffold) : (s.reverse).reverse.name = s.name := rfl
+
+/-- what reversal does to one row: gap rows are untouched; a fragment keeps identity, name, interval and tags
+    and its strand is negated (`-1 * strand`; `+ ↦ -`, `- ↦ +`, unknown `0 ↦ 0`). -/
+theorem row_reverse_gap (g : Gap) : (Row.gap g).reverse = Row.gap g := rfl
+theorem row_reverse_frag (f : Fragment) :
+    (Row.frag f).reverse = Row.frag { f with strand := - f.strand } := by
+  simp only [Row.reverse, Fragment.reverse, Row.frag.injEq, Fragment.mk.injEq, true_and, and_true]
+  omega
+
+/-- one reversal preserves the number of rows … -/
+theorem reverse_rows_length (s : Scaffold) : s.reverse.rows.length = s.rows.length := by
+  simp [Scaffold.reverse]
+
+/-- … inverts the row order: row `i` of the result is the reversed row `n-1-i` of the original … -/
+theorem reverse_rows_get (s : Scaffold) (i : Nat) (h : i < s.rows.length) :
+    s.reverse.rows[i]? = (s.rows[s.rows.length - 1 - i]?).map Row.reverse := by
+  simp only [Scaffold.reverse, List.getElem?_map, List.getElem?_reverse h]
+
+/-- … preserves the scaffold length … -/
+theorem reverse_length (s : Scaffold) : s.reverse.length = s.length := by
+  simp only [Scaffold.length, Scaffold.reverse]
+  exact C14Proofs.rowsLength_reverse s.rows
+
+/-- … and every row length, gap-ness, and the name, original name and original tags of the scaffold. -/
+theorem row_reverse_length (r : Row) : r.reverse.length = r.length := C14Proofs.row_reverse_length r
+theorem row_reverse_isGap (r : Row) : r.reverse.isGap = r.isGap := by cases r <;> rfl
+theorem reverse_keeps (s : Scaffold) :
+    s.reverse.name = s.name ∧ s.reverse.originalName = s.originalName ∧ s.reverse.originalTags = s.originalTags :=
+  ⟨rfl, rfl, rfl⟩
+
+/-- summary in one statement (`reverse_preserves`): same length, same number of rows, and for every position `i`
+    the row at `i` in the reversed scaffold is row `n-1-i` of the original with: gap rows identical; fragments with
+    identical name, start, end, tags and the strand negated. -/
+theorem reverse_preserves (s : Scaffold) :
+    rowsLength s.reverse.rows = rowsLength s.rows ∧ s.reverse.rows.length = s.rows.length ∧
+    ∀ i, i < s.rows.length →
+      match s.rows[s.rows.length - 1 - i]?, s.reverse.rows[i]? with
+      | some (.gap g), some r' => r' = .gap g
+      | some (.frag f), some r' => ∃ f', r' = .frag f' ∧ f'.name = f.name ∧ f'.start = f.start ∧ f'.stop = f.stop ∧
+          f'.tags = f.tags ∧ f'.oid = f.oid ∧ f'.strand = - f.strand
+      | _, _ => False := by
+  refine ⟨C14Proofs.rowsLength_reverse s.rows, reverse_rows_length s, ?_⟩
+  intro i hi
+  rw [reverse_rows_get s i hi]
+  have hj : s.rows.length - 1 - i < s.rows.length := by omega
+  rw [List.getElem?_eq_getElem hj]
+  cases s.rows[s.rows.length - 1 - i] with
+  | gap g => simp [Row.reverse]
+  | frag f => simp [row_reverse_frag]
+
+example : (Scaffold.reverse { name := "s".toList, rows :=
+      [.frag { name := "a".toList, start := 1, stop := 4, strand := 1 }, .gap { length := 7, gapType := [] },
+       .frag { name := "b".toList, start := 3, stop := 9, strand := -1 }] }).rows
+    = [.frag { name := "b".toList, start := 3, stop := 9, strand := 1 }, .gap { length := 7, gapType := [] },
+       .frag { name := "a".toList, start := 1, stop := 4, strand := -1 }] := by decide
+
+/-! ### streaming a reversed scaffold
+
+  Vocabulary (defined in Proofs/C03Stream.lean, C03Seq.lean, C03Wrap.lean):
+  * `resOf name` — the residues of the input FASTA record `name`;  `RowOK file idx resOf row` — a fragment row names
+    an index entry whose offsets describe where `resOf name` lies in `file` (`LaidOut`: residue `L*rpl + c` is the
+    file byte at `fileOffset + mll*L + c`) and `1 ≤ start ≤ end ≤ length`; gap rows are always OK;
+  * `rowsBody resOf rows` — concatenation in row order of `resOf name [start-1 : end]` (reverse-complemented iff
+    strand = -1) and `gap.length` gap characters;
+  * `recordBytes w name body` — `>name\n` followed by `body` in lines of `w` bytes, each ended by `\n`
+    (`wrapBody`, closed form `wrapBody_eq_lines` in C03). -/
+
+/-- Streaming a reversed scaffold writes exactly the record whose sequence is the case-preserving IUPAC reverse
+    complement of the sequence streamed for the original — for every indexed FASTA file, every buffer size and line
+    width, every scaffold whose fragment strands are `+` or `-`. Both calls succeed. -/
+theorem stream_reverse {bs w : Int} (hbs : 1 ≤ bs) (hw : 1 ≤ w) (file : Bytes) (idx : List (Str × FastaInfo))
+    (resOf : Str → Bytes) (sc : Scaffold) (hok : ∀ r ∈ sc.rows, RowOK file idx resOf r)
+    (hstrand : ∀ f, Row.frag f ∈ sc.rows → f.strand = 1 ∨ f.strand = -1) :
+    ∃ lg lg', streamScaffold file idx bs w sc = .ok lg ∧ streamScaffold file idx bs w sc.reverse = .ok lg' ∧
+      lg.out = recordBytes w sc.name (rowsBody resOf sc.rows) ∧
+      lg'.out = recordBytes w sc.name (reverseComplement (rowsBody resOf sc.rows)) := by
+  obtain ⟨lg, h1, h2, -, -⟩ := scaffold_spec hbs hw file idx resOf sc hok
+  have hok' : ∀ r ∈ sc.reverse.rows, RowOK file idx resOf r := by
+    intro r hr
+    simp only [Scaffold.reverse, List.mem_map, List.mem_reverse] at hr
+    obtain ⟨r0, hr0, rfl⟩ := hr
+    exact C14Proofs.rowOK_reverse r0 (hok r0 hr0)
+  obtain ⟨lg', h1', h2', -, -⟩ := scaffold_spec hbs hw file idx resOf sc.reverse hok'
+  refine ⟨lg, lg', h1, h1', h2, ?_⟩
+  rw [h2']
+  show recordBytes w sc.name (rowsBody resOf ((sc.rows.reverse).map Row.reverse)) = _
+  rw [C14Proofs.rowsBody_reverse resOf sc.rows hstrand]
+
+/-- the sequence-level statement alone, and its involution -/
+theorem body_reverse (resOf : Str → Bytes) (sc : Scaffold)
+    (hstrand : ∀ f, Row.frag f ∈ sc.rows → f.strand = 1 ∨ f.strand = -1) :
+    rowsBody resOf sc.reverse.rows = reverseComplement (rowsBody resOf sc.rows) :=
+  C14Proofs.rowsBody_reverse resOf sc.rows hstrand
+
+/-! #### a concrete instance (hypotheses satisfiable, output as expected) and the unknown-strand counterexample -/
+
+/- fixtures (Proofs/C03Example.lean): `exFile` = `>x\nAACC\nNNGT\nTAC\n`, record `x` = AACCNNGTTAC indexed as
+   `exIdx` (offset 3, 4 residues per line, 5 bytes per line), `exScaffold` = `x:1-4(+) gap(2) x:6-10(-)`. -/
+example : ∀ r ∈ exScaffold.rows, RowOK exFile exIdx exResOf r := exRowsOK
+
+example : ∀ f, Row.frag f ∈ exScaffold.rows → f.strand = 1 ∨ f.strand = -1 := by
+  intro f hf
+  simp only [exScaffold, List.mem_cons, Row.frag.injEq, List.not_mem_nil, or_false, reduceCtorEq, false_or] at hf
+  rcases hf with rfl | rfl <;> decide
+
+/-- the model run on the instance, buffer size 3, line width 4:  AACCNNTAACN  and its reverse complement NGTTANNGGTT -/
+example : (streamScaffold exFile exIdx 3 4 exScaffold).toOption.map (·.out)
+    = some [62, 115, 10, 65, 65, 67, 67, 10, 78, 78, 84, 65, 10, 65, 67, 78, 10] := by decide +kernel
+example : (streamScaffold exFile exIdx 3 4 exScaffold.reverse).toOption.map (·.out)
+    = some [62, 115, 10, 78, 71, 84, 84, 10, 65, 78, 78, 71, 10, 71, 84, 84, 10] := by decide +kernel
+
+/-- FALSE for unknown strands (known finding F9, `Scaffold.reverse` keeps strand 0 and strand 0 streams forward):
+    scaffold `x:1-4(?) gap(1) x:6-10(+)` over AACCNNGTTAC streams AACC N NGTTA; reversed it streams TAACN N AACC,
+    but the reverse complement of the original stream is TAACN N GGTT.  (`exUnknown`: Proofs/C03Example.lean) -/
+theorem stream_reverse_unknown_strand_counterexample :
+    (∀ r ∈ exUnknown.rows, RowOK exFile exIdx exResOf r) ∧
+    (streamScaffold exFile exIdx 3 60 exUnknown).toOption.map (·.out)
+      = some ([62, 115, 10] ++ [65, 65, 67, 67, 78, 78, 71, 84, 84, 65] ++ [10]) ∧
+    (streamScaffold exFile exIdx 3 60 exUnknown.reverse).toOption.map (·.out)
+      = some ([62, 115, 10] ++ [84, 65, 65, 67, 78, 78, 65, 65, 67, 67] ++ [10]) ∧
+    reverseComplement [65, 65, 67, 67, 78, 78, 71, 84, 84, 65] = [84, 65, 65, 67, 78, 78, 71, 71, 84, 84] ∧
+    rowsBody exResOf exUnknown.reverse.rows ≠ reverseComplement (rowsBody exResOf exUnknown.rows) := by
+  refine ⟨?_, by decide +kernel, by decide +kernel, by decide +kernel, by decide +kernel⟩
+  intro r hr
+  simp only [exUnknown, List.mem_cons, List.not_mem_nil, or_false] at hr
+  rcases hr with rfl | rfl | rfl
+  · exact exFragOK _ rfl (by decide) (by decide) (by decide)
+  · trivial
+  · exact exFragOK _ rfl (by decide) (by decide) (by decide)
+
 end AgpTpf.C14
